@@ -879,14 +879,35 @@ impl MachineState {
             }
         }
 
-        let end_cell = heap_pstr_iter.heap[heap_pstr_iter.focus()];
+        let focus = heap_pstr_iter.focus();
+        let is_cyclic = heap_pstr_iter.is_cyclic();
+        let end_cell = self.store(self.deref(self.heap[focus]));
 
-        if heap_pstr_iter.is_cyclic() || end_cell != empty_list_as_cell!() {
+        if is_cyclic {
             let err = self.type_error(ValidType::List, a1);
             return Err(self.error_form(err, stub_gen()));
         }
 
-        Ok(chars)
+        if end_cell == empty_list_as_cell!() {
+            return Ok(chars);
+        }
+
+        read_heap_cell!(end_cell,
+            (HeapCellValueTag::Lis, l) => {
+                // the characters are followed by an ordinary list (its first element is not
+                // a character): keep collecting the remaining elements
+                self.try_from_inner_list(chars, l, stub_gen, a1)
+            }
+            _ => {
+                if end_cell.is_var() {
+                    let err = self.instantiation_error();
+                    Err(self.error_form(err, stub_gen()))
+                } else {
+                    let err = self.type_error(ValidType::List, a1);
+                    Err(self.error_form(err, stub_gen()))
+                }
+            }
+        )
     }
 
     // returns true on failure.
